@@ -573,7 +573,7 @@ func (ex *Exec) fmtOperand(caller *frame, verb byte, flags string, arg Value) []
 			return lit(fmt.Sprintf("%U", x))
 		}
 	case *Term:
-		if k, ok := basicInt(t); ok && x.Sort.K == SBV {
+		if k, ok := basicInt(t); ok && (x.Sort.K == SBV || x.Sort.K == SInt) {
 			c := ex.concInt(x, k)
 			return ex.fmtOperand(caller, verb, flags, iface{t: t, v: c})
 		}
